@@ -171,13 +171,17 @@ REGISTRY["C02"] = {
                    "expiry}, schedule perturbation at the start-up window. After every action the instance is brought to quiescence and the invariant is "
                    "checked: StartAll returned; no waiter returned true while the model holds a token; a waiter with a live context never returned false; an "
                    "expired waiter returned; once the model is empty every live and every later waiter has returned true (still blocked at the fixpoint = "
-                   "never); exactly one CeaseFlowTrace and no flow trace after it."),
-    "level_note": LOCKSTEP_TRUST + " 'Within bounded time' is decided as 'returned by the time nothing can move any more'.",
+                   "never); exactly one CeaseFlowTrace and no flow trace after it. TestC02Shared: 2..3 instances reporting to one tracer (bpmn.WithTracer; every fifth case "
+                   "a tracer each, as control group), start events triggered one by one with Process.StartWith so that an instance stays partially started while "
+                   "other instances start, run and complete; histories interleave the instances; per instance the same invariant plus: no CeaseFlowTrace before "
+                   "every start event of THAT instance fired and its last token is gone."),
+    "level_note": LOCKSTEP_TRUST + " 'Within bounded time' is decided as 'returned by the time nothing can move any more'. Waiting on an instance none of whose start events was ever triggered is outside the generated domain (the engine answers true at once; no caller does this).",
     "technique": "rapid property test over generated call histories (stateful), model-based invariant after every step, stuck detection by goroutine snapshot",
     "rule": ("Distinct = descriptor (start events, chain shapes, action list, perturbation seed). Non-trivial = (>=2 waiters or a repeated wait after expiry or >=2 start events) "
-             "and at least one task answered after a wait was started."),
+             "and at least one task answered after a wait was started. TestC02Shared: shared tracer and (an instance partially started while another instance's start event fires, or two instances alive at once)."),
     "tests": [
         {"name": "TestC02Waiters", "checks": {"quick": 120, "thorough": 4000}, "shards": {"quick": 16, "thorough": 16}, "gomaxprocs": [4, 2, 16, 1]},
+        {"name": "TestC02Shared", "checks": {"quick": 60, "thorough": 2000}, "shards": {"quick": 8, "thorough": 16}, "gomaxprocs": [4, 2, 16, 1]},
     ],
 }
 
